@@ -35,7 +35,7 @@ EXCLUDED = {
 def entries(rules=None):
     out = []
     for f in sorted(os.listdir(ADV)):
-        m = re.match(r'([AB]\d+)_(R\d+)_(\w+)\.diff$', f)
+        m = re.match(r'([ABC]\d+)_(R\d+)_(\w+)\.diff$', f)
         if not m or f[:-5] in EXCLUDED:
             continue
         if rules and m.group(2) not in rules:
